@@ -34,19 +34,28 @@ ASSUMPTIONS = [
 
 TECHNIQUE = "Lean 4 theorems over an executable transcription of the reader (fuel-indexed loops, checked indices) + differential correspondence check through socketpairs / loopback TCP"
 
-LEVEL_TEXT = ("Proved in Lean 4 about the model that the driver runs, for all byte lists: (no_dotdot) the path handed to the "
-              "application never contains two consecutive dots, for every stream and every request target; (read_total, "
-              "serve_total) HttpRequest::read and the whole HttpServer::serve loop terminate with fuel linear in the stream "
-              "length and never index outside a string — every loop iteration consumes at least one byte or exits, whatever "
-              "the stream and wherever the peer closes; (url_total, urldecode_total) Url::Url and Url::decode never index outside "
-              "their argument, for every byte string; header lookup is case-insensitive (capitalized is idempotent and "
-              "case-invariant); the request-line/target split returns exactly the method, target, protocol, query and "
-              "fragment that were sent. The model is tied to the code by the correspondence check (all observable fields, "
-              "socket state, bytes written back, bytes left unread).")
+LEVEL_TEXT = ("Proved in Lean 4 about the model that the driver runs, for ALL byte lists (the stream a peer sends before it closes, "
+              "cut anywhere): (no_dotdot, no_dotdot_served, no_dotdot_target, replace_removes_all, path_has_no_nul) the path handed to "
+              "the application never contains two consecutive dots and no NUL, for every stream and every request target, whatever "
+              "percent-encoding or repetition; (read_total, readHeaders_total, readBody_total, serve_total) HttpRequest::read and the "
+              "whole keep-alive loop of HttpServer::serve never index outside a string and end within |stream|+2 loop passes — every "
+              "pass consumes at least one byte or leaves (this is exactly what failed before fix c3aed7a); (url_total, urldecode_total, "
+              "requestline_total, target_total, query_total) Url::Url, Url::decode (= the stated percent-decoding function), the "
+              "request-line/target splits and Url::parseQuery never index outside their argument; (capitalized_case_invariant, "
+              "header_lookup_case_insensitive, header_set_get) header lookup is case-insensitive; (readLine_faithful, "
+              "requestline_faithful, headers_faithful, body_content_length_exact, read_faithful) read(serialize q ++ rest) = (q, rest) "
+              "for every well-formed request q with no body or a Content-Length body of any size, with any pipelined bytes left "
+              "unread. The model is tied to the code by the correspondence check on all observable fields, socket state, bytes "
+              "written back and bytes left unread (socketpair and loopback TCP, sequential and concurrent server).")
 
-LEVEL_NOTE = ("Trusted: Lean kernel, harness + watchdog, libc/OS as listed in assumptions. Timeouts/select and partial arrival are "
-              "runtime behaviour outside the model (EOF only). Static file serving and Range parsing (HttpServer.cpp:100-184) are "
-              "covered by a safety oracle only (no byte from outside the root, legal status codes, ASan), not by the model. ")
+LEVEL_NOTE = ("Trusted: Lean kernel, harness + watchdog, libc/OS as listed in assumptions. Partial: read_faithful is proved for "
+              "Content-Length framing; the chunked statement is kept as `def read_faithful_chunked_full` (not proved; chunked requests "
+              "are validated by the correspondence check and the python reference). The RFC 3986 characterisation of the ?/# split and "
+              "the Dic `other keys unaffected` lemma are not theorems (K + reference only); String::replace/contains are modelled "
+              "directly as leftmost non-overlapping removal / scan for the constant \"..\" (tied by K on every target over "
+              "{. / %2e %2f %25 a} up to the stated length). Timeouts/select and partial arrival are runtime behaviour outside the "
+              "model (EOF only). Static file serving and Range parsing (HttpServer.cpp:100-184) are covered by a safety oracle only "
+              "(no byte from outside the root, legal status codes, ASan), not by the model; their arithmetic belongs to C10.")
 
 
 # ------------------------------------------------------------------ helpers
@@ -359,10 +368,9 @@ def gen(rng, tier):
     # --- E. URLs
     import itertools
     ualpha = b":/[]@?#%a1"
-    umax = 5 if quick else 6
     c = []
-    for L in range(0, umax + 1):
-        for t in itertools.product(ualpha, repeat=L):
+    for L in range(0, 6 + (0 if quick else 1)):
+        for t in itertools.product(ualpha if L <= 5 else ualpha[:9], repeat=L):
             c.append("url " + hexs(bytes(t)))
             st["url_exhaustive"] += 1
             if len(c) == 1000:
@@ -458,8 +466,15 @@ def distribution(cases):
     return {"ops_by_kind": d, "stream_sizes": sizes, "stream_features": feats, "generator_classes": dict(GEN_STATS)}
 
 
-EXHAUSTIVE = {"quick": "all request targets over the tokens {. / %2e %2f %25 a} of byte length <= 9 (53,881) through HttpRequest; all strings of length <= 5 over {: / [ ] @ ? # % a 1} through Url()",
-              "thorough": "all request targets over the tokens {. / %2e %2f %25 a} of byte length <= 12 (1,899,529) through HttpRequest; all strings of length <= 6 over {: / [ ] @ ? # % a 1} through Url()"}
+def _count_targets(n):
+    a = [1, 3, 9]
+    while len(a) <= n:
+        a.append(3 * a[-1] + 3 * a[-3])
+    return sum(a[:n + 1])
+
+
+EXHAUSTIVE = {"quick": "all %d request targets over the tokens {. / %%2e %%2f %%25 a} of byte length <= 9 through HttpRequest(Socket&); all 111111 strings of length <= 5 over {: / [ ] @ ? # %% a 1} through Url()" % _count_targets(9),
+              "thorough": "all %d request targets over the tokens {. / %%2e %%2f %%25 a} of byte length <= 12 through HttpRequest(Socket&); all 111111 strings of length <= 5 over {: / [ ] @ ? # %% a 1} and all 531441 strings of length 6 over {: / [ ] @ ? # %% a} through Url()" % _count_targets(12)}
 
 
 # ------------------------------------------------------------------ independent reference (well-formed inputs only)
